@@ -5,7 +5,6 @@ import (
 	"fmt"
 	"io"
 	"net/http"
-	"net/http/httptest"
 	"net/url"
 	"strings"
 	"time"
@@ -232,11 +231,18 @@ func (s *c01Spy) WriteHeader(c int)           { s.code = c }
 func (s *c01Spy) Write(b []byte) (int, error) { s.body.Write(b); return len(b), nil }
 
 func newReq(method, path string) *http.Request {
-	req := httptest.NewRequest("GET", "/", nil)
-	req.Method = method
-	req.URL = &url.URL{Path: path}
-	req.RequestURI = path
-	return req
+	return &http.Request{
+		Method:     method,
+		URL:        &url.URL{Path: path},
+		Proto:      "HTTP/1.1",
+		ProtoMajor: 1,
+		ProtoMinor: 1,
+		Header:     http.Header{},
+		Host:       "example.com",
+		RequestURI: path,
+		RemoteAddr: "192.0.2.1:1234",
+		Body:       http.NoBody,
+	}
 }
 
 // c01FlameEval builds a Flame with the given (method, route) registrations and serves one request.
